@@ -20,7 +20,7 @@ def history(rng, n):
     from adcgen.indices import Indices, get_symbols
     log = []
     for _ in range(n):
-        k = rng.randrange(12)
+        k = rng.randrange(16)
         try:
             if k == 0:
                 GroundState(Operators("mp")).energy(rng.choice([1, 2]))
@@ -45,6 +45,17 @@ def history(rng, n):
                 GroundState(Operators("mp"), first_order_singles=True).amplitude(1, "ph", "ia")
             elif k == 10:
                 SecularMatrix(IntermediateStates(GroundState(Operators("mp")), "ip")).isr_matrix_block(1, "h,h", "i,j")
+            # the same method with the same arguments on differently configured objects (other
+            # partitioning / variant): results cached per object must not leak between objects
+            elif k == 12:
+                SecularMatrix(IntermediateStates(GroundState(Operators("re")), "pp")).isr_matrix_block(0, "ph,ph", "ia,jb")
+            elif k == 13:
+                SecularMatrix(IntermediateStates(GroundState(Operators("mp")), "ip")).expectation_value(0)
+            elif k == 14:
+                SecularMatrix(IntermediateStates(GroundState(Operators("re")), "pp")).mvp_block_order(1, "ph", "ph,ph", "ia")
+            elif k == 15:
+                GroundState(Operators("re")).energy(2)
+                IntermediateStates(GroundState(Operators("mp"), first_order_singles=True), "pp").overlap_precursor(2, "ph,ph", "ia,jb")
             else:
                 Expr(GroundState(Operators("mp")).energy(2)).substitute_contracted()
             log.append(k)
@@ -67,6 +78,8 @@ REQUESTS = {
     "tm_ph2": ("", lambda A: A["prop"].trans_moment_space(2, "ph")),
     "itmd_t2_2": ("ijab", lambda A: A["itmd"].available["t2_2"].expand_itmd(indices="ijab").sympy),
     "singles1": ("ia", lambda A: A["gs_s"].amplitude(1, "ph", "ia")),
+    "m_phph0": ("iajb", lambda A: A["m"].isr_matrix_block(0, "ph,ph", "ia,jb")),
+    "ev0": ("", lambda A: A["m"].expectation_value(0)),
     # no value: the products of wavefunctions inside the precursor states are scanned for indices
     # that occur more than twice in a term (two factors sharing their contracted indices)
     "wf_products": ("", lambda A: 0),
